@@ -63,6 +63,16 @@ def decorate(rng, doc):
                                               ["poly", [[docs.fnum(100.0), 0], [docs.fnum(1.0), 1]]]])
             t.update(kind=rng.choice(["abstime", "reltime"]), unit=rng.choice([None, "s", "ms"]), epoch=rng.choice([None, "TAI", "2000-01-01T00:00:00"]),
                      offset_from=rng.choice([None, "SRC_SEQ_CTR"]))
+        if t["kind"] == "enum" and rng.random() < 0.3:
+            # an enumeration over a STRING field: the keys are the encoded texts
+            cs_ = rng.choice(["UTF-8", "ISO-8859-1", "UTF-16BE", "UTF-16LE", "UTF-16", "UTF-16"])
+            codec = {"UTF-8": "utf-8", "ISO-8859-1": "latin-1", "UTF-16BE": "utf-16-be", "UTF-16LE": "utf-16-le", "UTF-16": "utf-16"}[cs_]
+            texts = ["SF", "ON", "ZZ"]
+            keys = [s.encode(codec) for s in texts]
+            t["enc"] = {"t": "str", "charset": cs_, "size": ["fixed", 8 * len(keys[0])]}
+            if cs_ == "UTF-16":
+                t["enc"]["byte_order"] = rng.choice(["mostSignificantByteFirst", "leastSignificantByteFirst"])
+            t["labels"] = [[["b", k.hex()], lbl] for k, lbl in zip(keys, ["SAFE", "ON", "OTHER"])]
         if t["kind"] == "str" and rng.random() < 0.3:
             t["enc"].update(charset=rng.choice(["UTF-16BE", "UTF-16LE", "UTF-16"]))
             if t["enc"]["charset"] == "UTF-16":
